@@ -96,6 +96,13 @@ func (p c10) Run(w *mon.Worker, idx int) mon.Result {
 	if idx%20 == 7 && !w.Race {
 		return c10JSONStream(w, idx)
 	}
+	if idx%20 == 17 && !w.Race {
+		// O8: one decoder object serves all input files of a run (every input format): what it yields for file k does not
+		// depend on files 1..k-1 (shared with C14's decoder-state family)
+		res := c14MultiFileDecode(w, idx)
+		res.Tags = append(res.Tags, "family:O8")
+		return res
+	}
 	r := w.Rand(idx)
 	dir := filepath.Join(w.Scratch, fmt.Sprintf("c10-%d", idx))
 	_ = os.MkdirAll(dir, 0o755)
